@@ -278,23 +278,46 @@ X_STEP = [
       rules=[('R11.adv', r'memunit_advance\(it,', '(*it__) += (', True), ('R11.close', r'\*_step\);', '*self->_step);', True)]),
 ] + [
     X('st_' + nm, STEP, r'bool operator%s\(const step_iterator_adaptor<D,Iterator,SFn>& p1, const step_iterator_adaptor<D,Iterator,SFn>& p2\) \{' % op, count=1,
-      rules=[('R11.step', r'p1\.step\(\)', 'p1->_step', True), ('R11.b1', r'p1\.base\(\)', 'p1->_base', True), ('R11.b2', r'p2\.base\(\)', 'p2->_base', True)])
+      rules=[('R11.step', r'p1\.step\(\)', 'p1->_step', True), ('R11.b1', r'p1\.base\(\)', 'p1->_base', True), ('R11.b2', r'p2\.base\(\)', 'p2->_base', True),
+             ('R11.dist', r'\bmemunit_distance\(', 'MEMUNIT_DISTANCE(', False)])
     for nm, op in (('gt', '>'), ('lt', '<'), ('ge', '>='), ('le', '<='))
 ]
 
 STEP_C = r'''
-typedef ptrdiff_t difference_type; typedef int64_t Iterator;      /* a memory-based iterator is its address in memory units */
+typedef ptrdiff_t difference_type;
+#if NESTED_BASE
+/* the base is itself a memory_based_step_iterator (y-iterators / 1-D iterators of views that are already stepped in x): its address and its own step;
+   memunit_distance of two such iterators is the distance of their bases (step_iterator.hpp), i.e. of their addresses */
+typedef struct { int64_t addr; difference_type step; } Iterator;
+#define ADDR(it) ((it).addr)
+#else
+typedef int64_t Iterator;      /* a memory-based iterator is its address in memory units */
+#define ADDR(it) (it)
+#endif
+#define MEMUNIT_DISTANCE(a, b) (ADDR(b) - ADDR(a))
 typedef struct { difference_type _step; } stepfn_t;
 typedef struct { Iterator _base; difference_type _step; } stepit_t;
 #define SMAX ((int64_t)1 << 40)
 #define CMAX ((int64_t)1 << 20)
+#if !NESTED_BASE
 difference_type sf_difference(const stepfn_t* self, Iterator it1, Iterator it2) @@sf_difference@@
 void sf_advance(const stepfn_t* self, Iterator* it__, difference_type d) @@sf_advance@@
+#endif
 _Bool st_gt(const stepit_t* p1, const stepit_t* p2) @@st_gt@@
 _Bool st_lt(const stepit_t* p1, const stepit_t* p2) @@st_lt@@
 _Bool st_ge(const stepit_t* p1, const stepit_t* p2) @@st_ge@@
 _Bool st_le(const stepit_t* p1, const stepit_t* p2) @@st_le@@
 #ifndef VERIF_NATIVE
+#if NESTED_BASE
+void hz_step_order(void){ stepit_t p, q; difference_type i, j; int64_t origin; difference_type inner;
+  __CPROVER_assume(-SMAX <= p._step && p._step <= SMAX && p._step != 0 && -SMAX <= origin && origin <= SMAX && -CMAX <= i && i <= CMAX && -CMAX <= j && j <= CMAX && -SMAX <= inner && inner <= SMAX && inner != 0);
+  q._step = p._step; p._base.addr = origin + i * p._step; q._base.addr = origin + j * p._step; p._base.step = inner; q._base.step = inner;   /* i-th and j-th element; the base walks with ANY non-zero step of its own */
+  __CPROVER_assert(st_lt(&p, &q) == (i < j), "operator< agrees with the element order whatever the direction of the base iterator (it < jt iff jt - it > 0)");
+  __CPROVER_assert(st_gt(&p, &q) == (i > j), "operator> agrees with the element order");
+  __CPROVER_assert(st_le(&p, &q) == (i <= j), "operator<= agrees with the element order");
+  __CPROVER_assert(st_ge(&p, &q) == (i >= j), "operator>= agrees with the element order");
+  __CPROVER_assert(0, "VACUITY"); }
+#else
 void hz_step_advance(void){ stepfn_t f; Iterator it; difference_type d; __CPROVER_assume(-SMAX <= f._step && f._step <= SMAX && -SMAX <= it && it <= SMAX && -CMAX <= d && d <= CMAX);
   Iterator o = it; sf_advance(&f, &it, d);
   __CPROVER_assert(it == o + d * f._step, "memunit_step_fn::advance moves by d steps");
@@ -311,6 +334,22 @@ void hz_step_order(void){ stepit_t p, q; difference_type i, j; Iterator origin;
   __CPROVER_assert((sf_difference(&f, p._base, q._base) > 0) == st_lt(&p, &q), "it < jt iff jt - it > 0");
   __CPROVER_assert(0, "VACUITY"); }
 #endif
+#endif
+'''
+
+REPLAY_NESTED = r'''
+// native: ordering of y-iterators / 1-D iterators of views whose x-iterator is already a step iterator with a negative or positive step
+#include <boost/gil.hpp>
+#include "vreplay.hpp"
+using namespace boost::gil;
+template <typename V> static int chk(V const& v, const char* what) { for (long x = 0; x < v.width(); x++) { auto it = v.col_begin(x);
+  for (long i = 0; i < v.height(); i++) for (long j = 0; j < v.height(); j++) { auto a = it + i, b = it + j;
+    if ((a < b) != (b - a > 0) || (a > b) != (b - a < 0) || (a <= b) != (b - a >= 0) || (a >= b) != (b - a <= 0))
+      REPRODUCED("%s: y-iterators of column %ld at rows %ld and %ld: b - a = %td but a<b=%d a>b=%d a<=b=%d a>=b=%d", what, x, i, j, b - a, (int)(a < b), (int)(a > b), (int)(a <= b), (int)(a >= b)); } } return 0; }
+int main(int argc, char** argv){ vr::parse(argc, argv); rgb8_image_t img(4, 3); auto v = view(img);
+  if (chk(v, "plain view") || chk(flipped_left_right_view(v), "flipped_left_right_view") || chk(rotated180_view(v), "rotated180_view") || chk(subsampled_view(v, 2, 1), "subsampled_view(2,1)")) return 1;
+  if (chk(flipped_up_down_view(v), "flipped_up_down_view") || chk(rotated90cw_view(v), "rotated90cw_view") || chk(rotated90ccw_view(v), "rotated90ccw_view") || chk(transposed_view(v), "transposed_view")) return 1;
+  NOT_REPRODUCED("it < jt iff jt - it > 0 for the y-iterators of all transformed views"); }
 '''
 
 REPLAY_LOC = r'''
@@ -355,10 +394,14 @@ UNITS = [
                  Check('y_distance_to', 'hz_ydist', engine='Z', timeout=300)],
          preconditions=['locator: |address|, |strides| <= 2^40 memory units, |coordinates| <= 2^20'],
          assumed=['memunit_advance / memunit_advanced / memunit_distance / memunit_step of the underlying x- and y-iterators: a += d, a + d, b - a, the stride (one-line bodies in pixel_iterator.hpp, step_iterator.hpp, planar_pixel_iterator.hpp; bit-aligned: unit bitcursor)']),
-    Unit('stepit', 'C03', STEP_C, extracts=X_STEP,
+    Unit('stepit', 'C03', STEP_C, extracts=X_STEP, insts=[('plain', 'quick', {'NESTED_BASE': '0'})],
          checks=[Check('step_advance', 'hz_step_advance', engine='Z', timeout=300), Check('step_order', 'hz_step_order', engine='Z', timeout=300)],
          preconditions=['step iterators: |step|, |address| <= 2^40, |element index| <= 2^20'],
-         assumed=['comparison of the base iterators is comparison of addresses']),
+         assumed=['memunit_distance of two plain iterators is the difference of their addresses (unit rawptr)']),
+    Unit('stepit_nested', 'C03', STEP_C, extracts=X_STEP, insts=[('nested', 'quick', {'NESTED_BASE': '1'})], replay=REPLAY_NESTED,
+         checks=[Check('step_order', 'hz_step_order', engine='Z', timeout=300)],
+         preconditions=['step iterators: |step|, |address| <= 2^40, |element index| <= 2^20; the base iterator has any non-zero step of its own'],
+         assumed=['memunit_distance of two step iterators is the memunit_distance of their bases (step_iterator.hpp, one line), i.e. the difference of their addresses']),
 ] + bits.units('C03', sizes=((1, 'quick'), (3, 'quick'), (4, 'thorough'), (7, 'thorough'), (13, 'thorough')))
 
 META = dict(
